@@ -1,10 +1,14 @@
 import Momtrop.Props.C01Table
+import Momtrop.Proofs.LoopStep
 /-!
 # The spanning flag can only be lost when an edge is removed
 
 `spanT_mono`: for the table of a graph whose `numMassive` field is the number of its massive edges (what `from_graph` computes), a subset
 that is mass-momentum spanning stays so when an edge is ADDED; equivalently removing an edge never gains the flag. This discharges the
-second of the two `RemovalFacts`; `removalFacts_of_loops` leaves only "a removal lowers the loop number by 0 or 1" as a hypothesis.
+second of the two `RemovalFacts`. The first ("a removal lowers the loop number by 0 or 1") is `loopsT_step`, from
+`Momtrop.loopNumber_erase` (`Proofs/LoopStep.lean`: counting of connectivity classes on both sides of the removal with the cyclomatic
+identity). `removalFacts` has no graph hypothesis left beyond `numMassive` being the count `from_graph` computes, and
+`tropical_sampling_model` is `tropical_sampling_table` without the `RemovalFacts` premise.
 -/
 namespace Momtrop.C01
 open Momtrop
@@ -73,5 +77,66 @@ theorem removalFacts_of_loops (G : TGraph ℝ) (D : Nat)
       loopsT G D g = loopsT G D (Mask.pop g e) ∨ loopsT G D g = loopsT G D (Mask.pop g e) + 1) :
     RemovalFacts G D :=
   ⟨hloops, fun g e he h => spanT_mono G D hnm g e he h⟩
+
+/-- **a removal lowers the table's loop number by 0 or 1** -/
+theorem loopsT_step (G : TGraph ℝ) (D : Nat) (g : Mask) (e : Nat) (he : e ∈ Mask.edges G.topology.length g) :
+    loopsT G D g = loopsT G D (Mask.pop g e) ∨ loopsT G D g = loopsT G D (Mask.pop g e) + 1 := by
+  unfold loopsT
+  rw [(C03.preEntry_flags G D _).1, (C03.preEntry_flags G D _).1, C04.edges_pop_erase _ g e he]
+  exact loopNumber_erase G.topology _ (Mask.edges_nodup _ _) (fun x hx => (Mask.mem_edges.mp hx).1) e he
+
+/-- both removal facts hold for every table `from_graph` can build -/
+theorem removalFacts (G : TGraph ℝ) (D : Nat)
+    (hnm : G.numMassive = ((List.range G.topology.length).filter (isMassive G.topology)).length) : RemovalFacts G D :=
+  removalFacts_of_loops G D hnm (fun g e he => loopsT_step G D g e he)
+
+/-- counting massive edges by index is counting them in the list -/
+theorem massive_count {α : Type} (top : List (TEdge α)) :
+    ((List.range top.length).filter (isMassive top)).length = (top.filter (·.massive)).length := by
+  induction top using List.reverseRecOn with
+  | nil => simp
+  | append_singleton l a ih =>
+    rw [List.length_append, List.length_singleton, List.range_succ, List.filter_append, List.filter_append,
+      List.length_append, List.length_append, ← ih]
+    congr 1
+    · congr 1
+      apply List.filter_congr
+      intro x hx
+      have hx' : x < l.length := List.mem_range.mp hx
+      unfold isMassive
+      rw [List.getElem?_append_left hx']
+    · have : isMassive (l ++ [a]) l.length = a.massive := by
+        unfold isMassive
+        simp
+      simp only [List.filter_cons, List.filter_nil, this]
+      split <;> rfl
+
+/-- `from_graph` stores the count the monotonicity theorem asks for -/
+theorem fromGraph_numMassive (Gin : InGraph ℝ) (D : Nat) :
+    (fromGraph Gin D).numMassive
+      = ((List.range (fromGraph Gin D).topology.length).filter (isMassive (fromGraph Gin D).topology)).length :=
+  (massive_count Gin.edges).symm
+
+/-- both removal facts hold for the table of every input graph -/
+theorem removalFacts_fromGraph (Gin : InGraph ℝ) (D : Nat) : RemovalFacts (fromGraph Gin D) D :=
+  removalFacts _ D (fromGraph_numMassive Gin D)
+
+open scoped ENNReal in
+/-- **Tropical sampling on the model's table, no graph fact assumed.** -/
+theorem tropical_sampling_model (G : TGraph ℝ) (D : Nat)
+    (hnm : G.numMassive = ((List.range G.topology.length).filter (isMassive G.topology)).length)
+    (g : Mask) (hg : g < 2 ^ G.topology.length)
+    (hJ : ∀ h, h < 2 ^ G.topology.length → Jval (omegaT G D) G.topology.length h ≠ 0)
+    (hJg : 0 < Jval (omegaT G D) G.topology.length g)
+    (hω : ∀ m, m ≠ 0 → m < 2 ^ G.topology.length → card G.topology.length m < card G.topology.length g → 0 < omegaT G D m)
+    (f : List Nat → List ℝ → ℝ≥0∞) :
+    ((C04.orderingsAux (card G.topology.length g) (Mask.edges G.topology.length g)).map fun σ =>
+        ENNReal.ofReal (C04.orderProb (omegaT G D) G.topology.length g σ) * chainInt (sectorOmegas (omegaT G D) g σ) 1 (f σ)).sum
+      = ((C04.orderingsAux (card G.topology.length g) (Mask.edges G.topology.length g)).map fun σ =>
+          nested (sectorOmegas (omegaT G D) g σ) 1 fun ys =>
+            ENNReal.ofReal (weightProd (sectorSteps G D g σ) ys
+              / ((uTrop (sectorSteps G D g σ) ys) ^ ((D : ℝ) / 2) * (vTrop (sectorSteps G D g σ) ys) ^ G.dod)
+              / Jval (omegaT G D) G.topology.length g) * f σ ys).sum :=
+  tropical_sampling_table G D (removalFacts G D hnm) g hg hJ hJg hω f
 
 end Momtrop.C01
